@@ -163,6 +163,8 @@ def build(case):
             _set_executors(L, nodes)
         for i in L["failed"]:
             nodes[i].failed = True
+        for i in L.get("running", []):
+            nodes[i].running = True         # left over from an interrupted run / re-loaded mid-run: no executor
         for i in L.get("nocache", []):
             nodes[i].use_cache = False      # an observer: really executes whenever it is triggered
     return scopes
@@ -318,6 +320,12 @@ def _run_once(case, seconds):
             after = _snap(case, scopes, ordered, sort_start)
             pulls.append([res, log, after, before, ret])
             _drain(scopes)
+            if len(pulls) == 1 and case.get("rewire"):
+                _, nodes0 = scopes[0]
+                for u, v, ch in case["rewire"].get("drop", []):
+                    nodes0[v].inputs[CH[ch]].disconnect(nodes0[u].outputs.out)
+                for u, v, ch in case["rewire"].get("add", []):
+                    nodes0[v].inputs[CH[ch]].connect(nodes0[u].outputs.out)
             if res == "BudgetError":
                 break
     except BudgetError:
@@ -340,7 +348,11 @@ def _snap(case, scopes, ordered, sort_start):
 def model_view(case, obs):
     if not (isinstance(obs, list) and len(obs) in (5, 6)):
         return obs
-    return [obs[0], obs[1], [lvl[:4] for lvl in obs[2]]]      # the owners' children keys are oracle-only
+    after = []
+    for L, lvl in zip(case["levels"], obs[2]):
+        rows = [r[:6] + [bool(r[6]) or (i in L.get("running", []))] for i, r in enumerate(lvl[0])]
+        after.append([rows] + lvl[1:4])      # children keys and running flags are oracle-only; the model carries a
+    return [obs[0], obs[1], after]           # node that is flagged running as "not ready", like a failed one
 
 
 # ---- model term --------------------------------------------------------------------------------
@@ -373,7 +385,7 @@ def _natl(l):
 def scope_term(L):
     run, acc, out, ups = _lists_after_ops(L)
     n = L["n"]
-    flags = lambda key: cl(cb(i in L[key]) for i in range(n))
+    flags = lambda key: cl(cb(i in L[key] or (key == "failed" and i in L.get("running", []))) for i in range(n))
     par = {"none": "PNone", "wf": "PWf", "macro": "PMacro"}[L["par"]]
     return ("(mkScope (tbl EmptyString " + cl(cs(x) for x in L["labels"]) + ") "
             "(tbl [] " + cl(_natl(x) for x in ups) + ") "
@@ -388,6 +400,8 @@ def scope_term(L):
 
 def modelled(case):
     for lv, L in enumerate(case["levels"]):
+        if L.get("running") and L["par"] != "none":
+            return False        # a composite with a child flagged running resumes THAT child (by label): oracle only
         if len(set(L["labels"])) != L["n"]:
             return False        # equal labels: the order inside a layer follows id(), not predicted
     return True
@@ -475,13 +489,13 @@ def expectation(case):
                 must_fail, complete = True, False
                 break
             allowed += [(lv, v) for v in others]
-            if any(v in L["bad"] or v in L["failed"] for v in others):
+            if any(v in L["bad"] or v in L["failed"] or v in L.get("running", []) for v in others):
                 must_fail, complete = True, False
                 break
     else:
         L0 = case["levels"][0]
         t = case["target"]
-        if t in L0["failed"]:
+        if t in L0["failed"] or t in L0.get("running", []):
             must_fail, complete = True, False
         else:
             allowed.append((0, t))
@@ -490,8 +504,10 @@ def expectation(case):
     return {"allowed": allowed, "refusal": refusal, "must_fail": must_fail, "complete": complete}
 
 
-def reference_value(case):
-    """plain-Python value of the target when everything the property wants has run (fresh graph)"""
+def reference_value(case, prev=None, chan=None):
+    """plain-Python value of the target when everything the property wants has run.  [prev]: what the input
+    channels held before a re-wiring (a channel left without connection keeps what it last fetched); [chan]: filled
+    with what every visited input channel fetches"""
     pulled = (set(range(len(case["levels"]))) if (case.get("prerun") or case.get("warm") == "root")
               else set(pulled_levels(case)))
     memo = {}
@@ -510,7 +526,9 @@ def reference_value(case):
         args = []
         for ch in range(3):
             conns = first(L, lv, v, ch)
-            args.append(val(lv, conns[0]) if conns else 0)
+            args.append(val(lv, conns[0]) if conns else (prev or {}).get(f"{lv}.{v}.{ch}", 0))
+            if chan is not None:
+                chan[f"{lv}.{v}.{ch}"] = args[-1]
         z = TOUCH if v in L.get("touch", []) else 0
         if v == 0 and L["par"] == "macro" and lv + 1 < len(case["levels"]) and (lv + 1) in pulled:
             U = case["levels"][lv + 1]
@@ -541,13 +559,28 @@ def _restored(case, before, after):
             return f"starting-nodes-not-restored: level {lv}: {b[1]} before, {a[1]} after"
         if b[4] != a[4]:
             return f"children-keys-changed: level {lv}: {b[4]} before, {a[4]} after"
-        if any(a[5]):
-            return f"left-running: level {lv}: running flags {a[5]} (nodes, then the parent) after the pull"
+        if a[5] != b[5]:
+            return (f"left-running: level {lv}: running flags (nodes, then the parent) {b[5]} before, "
+                    f"{a[5]} after the pull")
         for who, key, lab in a[4]:
             if key != lab:
                 return (f"label-not-restored: level {lv}: the {who} composite lists a child under {key!r} "
                         f"whose label is {lab!r}")
     return None
+
+
+def rewired(case):
+    """the case as it is after the first pull of a history with a `rewire` step (level 0 data connections)"""
+    rw = case.get("rewire")
+    if not rw:
+        return case, None
+    c2 = json.loads(json.dumps(case))
+    L0 = c2["levels"][0]
+    drop = [list(x) for x in rw.get("drop", [])]
+    L0["data"] = [e for e in L0["data"] if list(e) not in drop] + [list(x) for x in rw.get("add", [])]
+    prev = {}
+    reference_value(case, chan=prev)      # what every input channel of the old closure last fetched
+    return c2, prev
 
 
 def oracle(case, obs):
@@ -556,19 +589,21 @@ def oracle(case, obs):
     v = _oracle_pull(case, obs[:5], first=not (case.get("prerun") or case.get("warm")), which=1)
     if v:
         return v
+    case2, prev = rewired(case)
     for n, o in enumerate(obs[5] if len(obs) == 6 else []):
-        v = _oracle_pull(case, o, first=False, which=n + 2)
+        v = _oracle_pull(case2, o, first=False, which=n + 2, prev=prev)
         if v:
             return v
     return None
 
 
-def _oracle_pull(case, obs, first, which):
+def _oracle_pull(case, obs, first, which, prev=None):
     """the property on ONE pull of the history; on a later pull (or after a root run) up-to-date nodes need not be
     called again, everything else -- nothing outside the closure, order, restoration, outcome, value -- holds
     for every pull"""
     res, log, after, before, ret = obs
-    tag = "" if which == 1 else f" (pull #{which} of the same target, inputs unchanged)"
+    tag = "" if which == 1 else (f" (pull #{which} of the same target, after re-wiring its upstream data)"
+                                  if prev is not None else f" (pull #{which} of the same target, inputs unchanged)")
     if res == "BudgetError":
         return "hang: the pull did not finish within its call/time budget" + tag
     ex = expectation(case)
@@ -587,7 +622,7 @@ def _oracle_pull(case, obs, first, which):
                 return f"dependency-order: level {lv}: {v} ran before its upstream {u}; log {entries}" + tag
             if first and (lv, v) in pos and (lv, u) not in pos:
                 return f"dependency-order: level {lv}: {v} ran without its upstream {u}; log {entries}"
-            if (lv, v) in pos and (u in L["bad"] or u in L["failed"]):
+            if (lv, v) in pos and (u in L["bad"] or u in L["failed"] or u in L.get("running", [])):
                 return (f"ran-after-failed-upstream: level {lv}: {v} ran although its upstream {u} failed; "
                         f"log {entries}" + tag)
     for a, b in zip(entries, entries[1:]):
@@ -613,7 +648,7 @@ def _oracle_pull(case, obs, first, which):
             return f"closure-not-run: {missing} not executed; log {entries}"
         if entries[-1] != (0, case["target"]):
             return f"target-not-last: log {entries}"
-    ref = reference_value(case)
+    ref = reference_value(case, prev=prev)
     if ret != ref:
         return f"wrong-value: returned {ret!r}, plain evaluation of the closure gives {ref}" + tag
     return None
@@ -955,6 +990,53 @@ def warm_variants(rng, levels, target, parents):
     return out
 
 
+def rewire_variants(rng, levels, target, parents):
+    """pull; re-wire the data upstream of the target (disconnect a provider / connect a new one); pull again on
+    the same node objects: the second pull follows the wiring as it is NOW (providers are uncached, so that a call
+    is an execution)"""
+    if rng.random() < 0.45:
+        return []
+    c = {"levels": json.loads(json.dumps(levels)), "target": target, "parents": parents, "repeat": rng.choice([2, 2, 3])}
+    L = c["levels"][0]
+    D = sorted(_closure(L, target) or [target])
+    rw = {"drop": [], "add": []}
+    edges = [e for e in L["data"] if e[1] in D]
+    if edges and rng.random() < 0.75:
+        e = rng.choice(edges)
+        rw["drop"].append(list(e))
+        L.setdefault("nocache", []).append(e[0])
+    if rng.random() < 0.7 or not rw["drop"]:
+        v = rng.choice(D)
+        if v > 0:
+            q = rng.randrange(v)
+            ch = rng.randrange(3)
+            if [q, v, ch] not in L["data"]:
+                rw["add"].append([q, v, ch])
+                if rng.random() < 0.6 and q not in L.get("nocache", []):
+                    L.setdefault("nocache", []).append(q)
+    if not (rw["drop"] or rw["add"]):
+        return []
+    c["rewire"] = rw
+    return [c]
+
+
+def running_variants(rng, levels, target, parents):
+    """a node of the upstream closure still flagged `running` (interrupted run, re-loaded mid-run; no executor):
+    it cannot be run again, the pull fails -- cleanly"""
+    if rng.random() < 0.7:
+        return []
+    c = {"levels": json.loads(json.dumps(levels)), "target": target, "parents": parents}
+    lv = rng.choice(pulled_levels(c))
+    L = c["levels"][lv]
+    k = _head(c, lv)
+    D = sorted(_closure(L, k) or [k])
+    cand = [v for v in D if v != L.get("comp")]
+    if len(D) < 2 or not cand:
+        return []
+    L["running"] = [rng.choice(cand)]
+    return [c]
+
+
 def generate(ctx):
     rng = ctx.rng
     n_graphs = ctx.n(75, 600)
@@ -967,7 +1049,8 @@ def generate(ctx):
             flags = [False, True] if (len(levels) > 1 or rng.random() < 0.3) else [rng.random() < 0.5]
             for parents in flags:
                 for c in (variants(rng, levels, target, parents, thorough) + history_variants(rng, levels, target, parents)
-                          + warm_variants(rng, levels, target, parents)):
+                          + warm_variants(rng, levels, target, parents) + rewire_variants(rng, levels, target, parents)
+                          + running_variants(rng, levels, target, parents)):
                     k = json.dumps(c, sort_keys=True)
                     if k not in seen:
                         seen.add(k)
@@ -986,7 +1069,7 @@ def shrink_candidates(case):
     c = json.loads(json.dumps(case))
     levels = c["levels"]
     for lv, L in enumerate(levels):
-        for fld in ("sig", "data", "start", "exe", "bad", "failed", "foreign", "nocache", "touch"):
+        for fld in ("sig", "data", "start", "exe", "bad", "failed", "foreign", "nocache", "touch", "running"):
             for i in range(len(L.get(fld, []))):
                 d = json.loads(json.dumps(c))
                 del d["levels"][lv][fld][i]
@@ -998,9 +1081,11 @@ def shrink_candidates(case):
         # drop the last node of a level when nothing refers to it
         last = L["n"] - 1
         used = (any(last in (u, v) for u, v, _ in L["data"]) or any(last in (sg[0], sg[1]) for sg in L["sig"])
-                or last in L["start"] + L["exe"] + L["bad"] + L["failed"] + L.get("foreign", []) + L.get("nocache", []) + L.get("touch", [])
+                or last in L["start"] + L["exe"] + L["bad"] + L["failed"] + L.get("foreign", []) + L.get("nocache", []) + L.get("touch", []) + L.get("running", [])
                 or L.get("comp") == last
-                or (lv == 0 and c["target"] == last))
+                or (lv == 0 and c["target"] == last)
+                or (lv == 0 and any(last in (e[0], e[1]) for e in (c.get("rewire") or {}).get("drop", [])
+                                    + (c.get("rewire") or {}).get("add", []))))
         if not used and L["n"] > (1 if lv == 0 else 2):
             d = json.loads(json.dumps(c))
             D = d["levels"][lv]
